@@ -573,6 +573,61 @@ class Rewriter:
         self.hit("R12-" + name, n)
         return n
 
+    # R14 -----------------------------------------------------------------
+    def desugar_str_match(self):
+        """`match E { "a" => A, "b" => B, name => C }` (string-literal patterns, which Verus leaves
+        uninterpreted; last arm binds an identifier or `_`) becomes
+        `{ let s__ = E; if str_is(s__, "a") { A } else if str_is(s__, "b") { B } else { let name = s__; C } }`,
+        which is what rustc does (patterns are tried in order; a `&str` pattern matches by equality)."""
+        m = mask(self.text)
+        n = 0
+        for mm in re.finditer(r"\bmatch\b", m):
+            ob = self._block_open(m, mm.end())
+            first = re.match(r"\s*", m[ob + 1:]).end() + ob + 1
+            if self.text[first] != '"':
+                continue
+            cb = match_close(m, ob)
+            scrut = self.text[mm.end():ob].strip()
+            arms, k = [], ob + 1
+            while True:
+                while k < cb and (m[k].isspace() or m[k] == ","):
+                    k += 1
+                if k >= cb:
+                    break
+                arrow = m.find("=>", k)
+                pat = self.text[k:arrow].strip()
+                j = arrow + 2
+                while m[j].isspace():
+                    j += 1
+                if m[j] == "{":
+                    e = match_close(m, j) + 1
+                else:
+                    depth, e = 0, j
+                    while e < cb:
+                        ch = m[e]
+                        if ch in "([{":
+                            depth += 1
+                        elif ch in ")]}":
+                            depth -= 1
+                        elif ch == "," and depth == 0:
+                            break
+                        e += 1
+                arms.append((pat, self.text[j:e].strip()))
+                k = e
+            lits = arms[:-1]
+            last_pat, last_body = arms[-1]
+            if not lits or not all(re.match(r'^"[^"]*"$', p) for p, _ in lits) or not re.match(r"^[a-z_][a-z_0-9]*$", last_pat):
+                raise ExtractError("%s: R14: match on string literals has an unsupported shape" % self.label)
+            out = "{ let s__ = %s; " % scrut
+            for p, b in lits:
+                out += "if str_is(s__, %s) { %s } else " % (p, b)
+            out += "{ %s%s } }" % ("" if last_pat == "_" else "let %s = s__; " % last_pat, last_body)
+            self.text = self.text[:mm.start()] + out + self.text[cb + 1:]
+            n += 1
+            break
+        self.hit("R14", n)
+        return n
+
     # R13 -----------------------------------------------------------------
     def take_fragment(self, start, sig, tail):
         """Keep ONE statement of the function: from the literal `start` (must occur once) to the `;`
